@@ -191,6 +191,9 @@ API_PANICKY = ("copy_from_slice", "split_at", "split_at_mut", "clone_from_slice"
                "split_off", "chunks", "chunks_exact", "windows", "rotate_left", "rotate_right", "last_mut_unchecked", "from_secs_f64", "abs")
 
 
+STRING_PANICKY = ("truncate", "split_off", "insert", "insert_str", "remove", "drain", "replace_range")
+
+
 def sites_of(P, body):
     out = []
     for bb, tm in body.terms():
@@ -224,6 +227,9 @@ def sites_of(P, body):
                 last = n.rsplit("::", 1)[-1]
                 if last in API_PANICKY and (n.startswith("core::slice::") or n.startswith("std::vec::Vec") or n.startswith("std::slice::") or n.startswith("core::str::") or "VecDeque" in n):
                     out.append(Site(body, bb, "api", last, tm["args"], tm["sp"], tm.get("exp", False), tm))
+                elif last in STRING_PANICKY and n.startswith("std::string::String::"):
+                    # byte positions inside a String must fall on character boundaries
+                    out.append(Site(body, bb, "api", "str-boundary:" + last, tm["args"], tm["sp"], tm.get("exp", False), tm))
                 elif " as std::ops::Add" in n or " as std::ops::Sub" in n or " as std::ops::Mul" in n or " as std::ops::AddAssign" in n or " as std::ops::SubAssign" in n:
                     if "Duration" in n or "Instant" in n or "SystemTime" in n:
                         out.append(Site(body, bb, "api", "time-arith:" + n.split(" as std::ops::")[1].split("<")[0].split(">")[0], tm["args"], tm["sp"], tm.get("exp", False), tm))
@@ -1388,6 +1394,15 @@ class Discharger:
 
     def _api(self, pr, s, ops):
         what = s.what
+        if what.startswith("str-boundary:"):
+            # position 0 and the string's own length are always boundaries
+            if len(ops) > 1:
+                r = pr.ranger.rng(ops[1])
+                if r == (0, 0):
+                    return ("D-const", "position 0")
+                if ops[1] == ("len", canon(ops[0])) or (ops[1][0] == "call" and str(ops[1][1]).endswith("::len") and ops[1][2] and canon(ops[1][2][0]) == canon(ops[0])):
+                    return ("D-len", "the string's own length")
+            return None
         if what in ("chunks", "chunks_exact", "windows"):
             r = pr.ranger.rng(ops[1]) if len(ops) > 1 else (None, None)
             if r[0] is not None and r[0] > 0:
